@@ -186,7 +186,7 @@ class MsgBlockList(List["Block"]):
 
 
 class Message:
-    __slots__ = ("name", "send_flags", "packet_id", "acks", "body_boundaries", "queued",
+    __slots__ = ("name", "_send_flags", "packet_id", "acks", "body_boundaries", "queued",
                  "offset", "raw_extra", "raw_body", "deserializer", "_blocks", "finalized",
                  "direction", "meta", "synthetic", "dropped", "sender")
 
@@ -195,7 +195,7 @@ class Message:
         maybe_reload_templates()
 
         self.name = name
-        self.send_flags = flags
+        self._send_flags = flags
         self.packet_id: Optional[int] = packet_id  # aka, sequence number
 
         self.acks = acks if acks is not None else tuple()
@@ -227,6 +227,18 @@ class Message:
                     self.add_block(bl)
             else:
                 self.add_block(block)
+
+    @property
+    def send_flags(self):
+        return self._send_flags
+
+    @send_flags.setter
+    def send_flags(self, val):
+        if self.raw_body and (int(val) ^ int(self._send_flags)) & int(PacketFlags.ZEROCODED):
+            # The unparsed body is still coded the way the old flag says, changing
+            # whether the message is zerocoded requires re-serializing the message body.
+            self.ensure_parsed()
+        self._send_flags = val
 
     @property
     def extra(self) -> bytes:
